@@ -173,6 +173,7 @@ struct Proc {
   uint32_t uid = 0, euid = 0, gid = 0, egid = 0;
   std::vector<uint32_t> groups;
   Inode *cwd = nullptr; std::string cwd_path;
+  int after_signal = 0;          // fault kind signal_after: deliver this signal when the current call returns
   uint32_t umask_ = 022;
   std::vector<FdEnt> fds;
   SigAct sig[65];
@@ -330,6 +331,7 @@ struct Kernel {
   void note_fault(const std::string &kind) { fault_counts[kind]++; }
 
   // ---- system calls (operate on the current process; set errno; may yield/block)
+  void after_syscall();
   int sys_open(const char *path, int flags, int mode);
   int sys_close(int fd);
   ssize_t sys_read(int fd, void *buf, size_t n);
